@@ -49,6 +49,11 @@ var stmtKinds = []string{
 	`try { x ( ) } finally { log ( "f" ) }`,
 	`try { raise ( "Z" ) } except "A" { log ( "a" ) } except "Z" , "Y" { log ( "zy" ) }`,
 	`try { x ( ) } except { } otherwise { log ( "o" ) }`,
+	// everything the clause grammar accepts: an error variable without `as`
+	// after the types, types without commas, a comma before the block
+	`try { x ( ) } except "A" ee { log ( ee ) }`,
+	`try { x ( ) } except "A" , "B" ee { log ( ee ) } except "C" "D" as ee { log ( ee.type ) }`,
+	`try { x ( ) } except "A" "B" { } except "C" , { log ( "c" ) }`,
 	`mutex mm { s := s + 1 }`,
 	`mutex mm { }`,
 	`import "foo/bar.ecal" as foo`,
